@@ -7,6 +7,7 @@ mod conv;
 mod r#gen;
 mod lin;
 mod doors;
+mod pipes;
 mod total;
 mod rewrite;
 mod text;
@@ -231,6 +232,13 @@ fn main() {
             let cases = read_cases(&arg(&args, "--cases").expect("--cases"));
             for c in &cases {
                 writeln!(out, "{}", doors::doors_event(c)).unwrap();
+            }
+        }
+        // pipes --cases F : arbitrary pipe sequences of Pipes.tla through the real PipeRunner (C16)
+        "pipes" => {
+            let cases = read_cases(&arg(&args, "--cases").expect("--cases"));
+            for c in &cases {
+                writeln!(out, "{}", pipes::pipes_event(c)).unwrap();
             }
         }
         _ => {
